@@ -88,7 +88,17 @@ TraceEERCounts ==
                (e.fn * e.e[2] - e.e[1] * np <= e.e[2] /\ e.e[1] * np - e.fn * e.e[2] <= e.e[2])>>,
           <<"C06.zero_eer_means_no_errors", ~ok \/ ~e.e_is_zero \/ (e.fp = 0 /\ e.fn = 0)>>}))
 
-Next == TraceNew \/ TraceEER \/ TraceEERCounts \/ TraceSetEasy
+(* history: the caller re-assigns the configuration attributes of a live object (as enum members  *)
+(* or as the plain strings the label type compares equal to)                                      *)
+TraceSetConfig ==
+  /\ IsEvent("SetConfig")
+  /\ LET e == Log[l]
+         o == [store[e.h] EXCEPT !.sc = e.sc, !.ec = e.ec]
+     IN /\ store' = (e.h :> o) @@ store /\ UNCHANGED base
+        /\ Report(e, Failing({<<"C06.raised", e.exc = "">>,
+                              <<"C06.state_after_assigning_configuration", e.exc # "" \/ ObjOfRec(e.post) = o>>}))
+
+Next == TraceNew \/ TraceEER \/ TraceEERCounts \/ TraceSetEasy \/ TraceSetConfig
 Spec == Init /\ [][Next]_vars
 AllConsumed == TLCGet("stats").diameter - 1 = Len(Log)
 =============================================================================
